@@ -118,7 +118,7 @@ def change_extension_functions_to_calls(
                 return node
             new_call = function_call(node.func.attr, [node.func.value] + node.args)
             # Keyword arguments go along (`seq.Where(filter=lambda ...)`)
-            new_call.keywords = node.keywords
+            new_call.keywords = getattr(node, "keywords", [])
             return new_call
 
     return transform_calls().visit(a)
